@@ -33,6 +33,7 @@ inductive Err
   | assertion (what : String)
   | typeError (what : String)
   | attributeError (what : String)
+  | notImplemented (what : String)
   /-- the real result is not representable in `PyAst` (not an exception of the real code) -/
   | outOfModel (what : String)
 deriving DecidableEq, Repr, Inhabited
@@ -205,7 +206,10 @@ def visitFunctionDef (search : List String) (parent : Option String) (name : Str
   let step1 : Except Err (Args × Repl) :=
     match st.repl with
     | .stmt (.ann t a v) =>
-      if !isName t then .error (.attributeError "replacement_node.target.id")
+      -- `target.id` is evaluated lazily, once per positional parameter; without one, `emit_arg` rejects the node
+      if !isName t then
+        (if args.args.isEmpty then .error (.notImplemented "emit_arg(AnnAssign with a non-Name target)")
+         else .error (.attributeError "replacement_node.target.id"))
       else
         let idx : Option Int := (findArg t args.args 0).map (fun ia => (ia.1 : Int) - (selfOffset args.args : Int))
         .ok (setDefault args idx v, .arg { name := t, ann := some a })
